@@ -15,7 +15,7 @@ const tMeek = "transports/meeklite.meekConn"
 
 func init() {
 	register(&PropInfo{
-		ID: "C16", Level: "other", MinObls: 11,
+		ID: "C16", Level: "other", MinObls: 9,
 		Explanation: "Stream integrity across the polling worker depends on goroutine scheduling and is not decided. Decided: R1 (bounds engine) the body handed to roundTrip is sndBuf[:wrSz] with 0 <= wrSz <= 65536 proved at the call, and what is kept for the next request is exactly sndBuf[wrSz:] with the same wrSz, prepended to the next body; " +
 			"R2 one session id: sessionID has a single writer (the constructor, from newSessionID) and the request header is set from that field; R3 one request in flight: roundTrip is called only from ioWorker, synchronously, transport.RoundTrip only in roundTrip, and ioWorker is started by exactly one go statement outside any loop; " +
 			"R4 closed-check-before-I/O: Read and Write test the close signal in their entry block, before anything else, and the closed arm returns an error without data; R5 no aliasing of in-flight data: every response slice handed to the reader comes from a fresh allocation (io.ReadAll) and Write enqueues a private copy of the caller's bytes; R6 polling stops after Close: the worker's select listens on the close channel and leaves the loop.",
